@@ -198,7 +198,7 @@ def simulate(L, stop_mode=False):
         if kind == "Language":
             if p.lang is None:
                 return False
-            if p.lang in KNOWN_LANGS:
+            if p.lang in KNOWN_LANGS or p.lang in _supported():
                 st["dialect"] = p.lang
                 return True
             add_error("(%d:%d): Language not supported: %s" % (i + 1, ind + 1, p.lang))
@@ -292,6 +292,61 @@ def simulate(L, stop_mode=False):
         pass
     return {"errors": errors, "delivered": delivered, "events": events, "accepted": finished and not errors,
             "finished": finished, "states": states}
+
+
+# ---------------------------------------------------------------- the same documents in any dialect
+
+_sup = None
+
+
+def _supported():
+    global _sup
+    if _sup is None:
+        from . import dialects
+        _sup = set(dialects.master())
+    return _sup
+
+
+ROLE_OF = {"Feature: F": ("feature", ": F"), "Rule: R": ("rule", ": R"), "Background: B": ("background", ": B"), "Scenario: S": ("scenario", ": S"),
+           "Scenario Outline: O": ("scenarioOutline", ": O"), "Example: E": ("scenario", ": E"), "Examples: X": ("examples", ": X"),
+           "Scenarios:": ("examples", ":"), "Given x": ("given", "x"), "And y": ("and|but", "y"), "Then w": ("then", "w")}
+_KEYWORD_KINDS = ("FeatureLine", "RuleLine", "BackgroundLine", "ScenarioLine", "ExamplesLine", "StepLine")
+
+
+def translate(L, d, rnd):
+    """The pool-line document L rewritten in dialect d: a language header in front, every English keyword line with a
+    randomly chosen LISTED keyword of d of the same role (any of them, not just the first).  The kind of every line under d
+    is decided by the keyword-table rules (vf/dialects.py), not assumed; a document with a line that d reads in two ways is
+    dropped (None).  French lines and language headers of the pool are left out."""
+    from . import dialects
+    spec = dialects.master()[d]
+    hdr = rnd.choice(["#language: " + d, "# language: " + d, "#language:" + d])
+    out = [(rnd.choice([0, 0, 2]), [hdr, {"en": "Comment", "fr": "Comment", d: "Comment"}, 0, None, None, d])]
+    for ind, p in L:
+        pl = pl_of(p)
+        if pl.lang is not None:
+            continue
+        if pl.kind is not None and pl.kind.get("en") is None:
+            continue                    # a French keyword line
+        text = pl.text
+        if text in ROLE_OF:
+            role, rest = ROLE_OF[text]
+            kws = (spec["and"] + spec["but"]) if role == "and|but" else spec[role]
+            kws = [k for k in kws if k != "* "] or kws
+            text = rnd.choice(kws) + rest
+        t = text.strip()
+        tk = dialects.title_kinds(spec, t)
+        stp = dialects.expected_step(spec, t)
+        if (tk and stp) or len(tk) > 1:
+            return None
+        generic = pl.kind.get("en") if pl.kind else None
+        if generic in _KEYWORD_KINDS:
+            generic = None
+        kind = next(iter(tk)) if tk else ("StepLine" if stp else generic)
+        if generic is not None and (tk or stp):
+            return None                 # a tag/row/comment/delimiter line cannot be a keyword line; be safe
+        out.append((ind, [text, {d: kind, "en": kind, "fr": kind}, pl.ncells, pl.sep, pl.bad, None]))
+    return out
 
 
 # ---------------------------------------------------------------- real-text paths to every parser state
